@@ -1,5 +1,6 @@
 import OdlModel.Common
 import OdlModel.Model.Deriv
+import OdlModel.Gen.UfuncDeriv
 open OdlModel OdlModel.Deriv
 
 /-! Driver for C06.  One case per line:
@@ -124,9 +125,40 @@ def doDeriv (l : Line) : Option String := do
   | some j =>
     some s!"ok {head} dlin={b01 j.isLinear} ddom={j.dom} dran={j.ran} dfld={b01 j.ranField} dval={dump j d}"
 
+/-- Exact rational value of a finite `Float`. -/
+def floatRat (x : Float) : Option Rat :=
+  if !x.isFinite then none
+  else
+    let (m, e) := x.frExp            -- x = m * 2^e, 1/2 ≤ |m| < 1
+    let mant : Int := (m.scaleB 53).toInt64.toInt   -- exact: 53-bit mantissa
+    let ex : Int := e - 53
+    if ex ≥ 0 then some ((mant * (2 : Int) ^ ex.toNat : Int) : Rat)
+    else some (mkRat mant (2 ^ (-ex).toNat))
+
+def ratFloat (r : Rat) : Float := Float.ofInt r.num / Float.ofNat r.den
+
+/-- `ufunc tbl=deriv|grad name=<ufunc> t=<rat>`: the GENERATED table entry evaluated at `Float`:
+`ok f=<value of the ufunc at t> d=<value of the table expression at t>` (exact rationals of the
+doubles), `err:nan` if not finite. -/
+def doUfunc (l : Line) : Option String := do
+  let tbl ← l.get? "tbl"
+  let name ← l.get? "name"
+  let f ← OdlModel.UfuncDeriv.Fn.ofName? name
+  let t ← l.rat? "t"
+  let table ← match tbl with
+    | "deriv" => some OdlModel.Gen.UfuncDeriv.table
+    | "grad" => some OdlModel.Gen.UfuncDeriv.gradTable
+    | _ => none
+  let (_, e) ← table.find? (fun p => p.1 = f)
+  let tf := ratFloat t
+  match floatRat (f.float tf), floatRat (e.evalF f tf) with
+  | some a, some b => some s!"ok f={showRat a} d={showRat b}"
+  | _, _ => some "err:nan"
+
 def handle (l : Line) : Option String :=
   match l.op with
   | "deriv" => doDeriv l
+  | "ufunc" => doUfunc l
   | _ => none
 
 def main : IO Unit := driverLoop handle
